@@ -176,7 +176,13 @@ class ExecutionContext:
                         case LinearIR.OpCode.SUB:
                             localScope[ref] = op1 - op2
                         case LinearIR.OpCode.DIV:
-                            localScope[ref] = op1 / op2
+                            if isinstance(
+                                instruction.Type, LinearIR.IntegerType
+                            ):
+                                # Integer division truncates toward zero
+                                localScope[ref] = int(op1 / op2)
+                            else:
+                                localScope[ref] = op1 / op2
                         case LinearIR.OpCode.MUL:
                             localScope[ref] = op1 * op2
                         case LinearIR.OpCode.MOD:
